@@ -168,7 +168,7 @@ type decEvent struct {
 // sections cannot be interleaved at all, and the remaining scenarios run their threads one after the other.
 var decSerialised bool
 
-const decParkTimeout = 3 * time.Second
+const decParkTimeout = 15 * time.Second
 
 // decSequential runs the threads to completion one at a time (schedule t,t,t per thread) with no gate.
 func decSequential(c *hx.Ctx, cw *hx.CaseWriter, ts []decThread, events []decEvent, kind string) {
